@@ -31,7 +31,15 @@ theorem load_fresh_partial (h : List (Op B)) (hok : AllOk real parse find (init 
     (p : Path) :
     (load real parse (run real parse find init h) p).1
       = ((run real parse find (init : State B T) h).fs p).map (fun f => parse f.bytes) :=
-  (load_spec real parse _ p (run_inv real parse find h _ (inv_init parse) hok)).1
+  (load_spec real parse rfl _ p (run_inv real parse find rfl h _ (inv_init parse) hok)).1
+
+/-- **stamp_is_fs_mtime.**  The time every cache layer compares — `file_io.get_last_modified()` of the
+FileIO classes in `jedi/file_io.py` that `_from_loader` / `parse_stub_module` construct, and of the parso
+classes they inherit from — is the file system's own full-resolution mtime (`os.path.getmtime`): the
+translator recognised every implementation.  `load_fresh_partial` and everything below it is proved
+from this (`rfl` on `Gen.C09.cfg.stampIsFsMtime`); an override that reads whole seconds makes the
+translator emit `false` and this file stops building (witness: `stale_if_stamp_truncated`). -/
+theorem stamp_is_fs_mtime (m : Nat) : reported real m = m := reported_eq real rfl m
 
 /-- a definition that no longer exists on disk is never reported: nothing is served for a path
 without a file, whatever the caches hold -/
@@ -49,8 +57,8 @@ theorem module_cache_per_script (h : List (Op B)) (hok : AllOk real parse find (
     (importName real parse find (step real parse find st .newScript) n).1
       = (find st.fs n).bind fun p => (st.fs p).map (fun f => parse f.bytes) := by
   intro st
-  have hi : Inv parse st := run_inv real parse find h _ (inv_init parse) hok
-  have hi1 : Inv parse (step real parse find st .newScript) := step_inv real parse find st _ hi trivial
+  have hi : Inv parse st := run_inv real parse find rfl h _ (inv_init parse) hok
+  have hi1 : Inv parse (step real parse find st .newScript) := step_inv real parse find rfl st _ hi trivial
   have hfs : (step real parse find st .newScript).fs = st.fs := by
     simp only [step]; split <;> rfl
   have hmc : (step real parse find st .newScript).modcache n = none := by
@@ -63,7 +71,7 @@ theorem module_cache_per_script (h : List (Op B)) (hok : AllOk real parse find (
   | none => rfl
   | some p =>
     simp only [Option.bind_some]
-    have := (load_spec real parse _ p hi1).1
+    have := (load_spec real parse rfl _ p hi1).1
     rw [hfs] at this
     exact this
 
@@ -94,9 +102,9 @@ theorem stub_as_fresh_process_partial (h : List (Op B)) (hok : AllOk real parse 
     (tryLoadStub real parse st q).1 = (tryLoadStub real parse (freshProcess st) q).1
     ∧ (tryLoadStub real parse st q).1 = stubNow parse st.fs q := by
   intro st
-  have hi : Inv parse st := run_inv real parse find h _ (inv_init parse) hok
-  have h1 := tryLoadStub_spec real parse st q hi rfl
-  have h2 := tryLoadStub_spec real parse (freshProcess st) q (inv_freshProcess parse st) rfl
+  have hi : Inv parse st := run_inv real parse find rfl h _ (inv_init parse) hok
+  have h1 := tryLoadStub_spec real parse rfl st q hi rfl
+  have h2 := tryLoadStub_spec real parse rfl (freshProcess st) q (inv_freshProcess parse st) rfl
   exact ⟨by rw [h1, h2]; rfl, h1⟩
 
 /-- a stub that no longer exists is never served, and a served stub is the parse of the bytes that
@@ -114,7 +122,8 @@ example : AllOk real (id : Nat → Nat) (fun _ _ => none) (init : State Nat Nat)
     [.write "m.py" 1 10, .load "m.py", .write "m.py" 2 20, .load "m.py", .newProcess,
      .load "m.py", .delete "m.py", .write "m.py" 3 30, .write "n.py" 4 40, .rename "n.py" "m.py",
      .load "m.py"] := by
-  simp [AllOk, OpOk, Fresh, step, load, cachedLoad, fallLoad, save, init, upd, real, JediModel.Gen.C09.cfg]
+  simp [AllOk, OpOk, Fresh, step, load, cachedLoad, fallLoad, save, reported, init, upd, real,
+    JediModel.Gen.C09.cfg]
 
 /-- … and by the history of the stub witnesses below: a sub-package is queried, then a sibling stub
 appears with a fresh stamp -/
@@ -155,6 +164,35 @@ theorem stale_older_than_pickle :
 file; an older sibling moved over a cached module is served stale, in the same process -/
 theorem stale_after_rename :
     ld [.write "m" 1 20, .write "n" 2 10, .load "m", .rename "n" "m"] "m" = some 1 := by decide
+
+/-- **truncated-stamp witness** (the reason for `stamp_is_fs_mtime`; stamps in milliseconds).  If the
+FileIO reports whole seconds (`os.stat(p)[stat.ST_MTIME]`), a rewrite with a strictly newer mtime —
+newer than the cached change time AND than the pickle file, so `AllOk` holds, see the `example`
+below — in the same clock second is not noticed: (1) by the next Script of the same process,
+(2) by a new process on the warm pickle directory (the pickle was written in that second too);
+(3) a further rewrite in a later second is seen again; (4) with the configuration read from the
+source all of them are seen. -/
+theorem stale_if_stamp_truncated :
+    let coarse : Cfg := { real with stampIsFsMtime := false }
+    let h : List (Op Nat) := [.write "m" 1 5100, .tick 5150, .load "m", .write "m" 2 5200]
+    (load coarse P (run coarse P F init h) "m").1 = some 1
+    ∧ (load coarse P (run coarse P F init (h ++ [.newProcess])) "m").1 = some 1
+    ∧ (load coarse P (run coarse P F init (h ++ [.load "m", .write "m" 3 6010])) "m").1 = some 3
+    ∧ ld h "m" = some 2 ∧ ld (h ++ [.newProcess]) "m" = some 2 := by decide
+
+/-- the history of `stale_if_stamp_truncated` satisfies `AllOk` under both configurations: the
+staleness there is not one of the adversarial-stamp findings -/
+example : AllOk { real with stampIsFsMtime := false } P F (init : State Nat Nat)
+      [.write "m" 1 5100, .tick 5150, .load "m", .write "m" 2 5200, .newProcess]
+    ∧ AllOk real P F (init : State Nat Nat)
+      [.write "m" 1 5100, .tick 5150, .load "m", .write "m" 2 5200, .newProcess] := by
+  simp [AllOk, OpOk, Fresh, step, load, cachedLoad, fallLoad, save, reported, subsec, init, upd, real,
+    JediModel.Gen.C09.cfg]
+
+/-- sub-second spacing alone is harmless with the real configuration: three rewrites 1 ms apart, a
+process change in between, every one is served -/
+example : ld [.write "m" 1 5100, .tick 5100, .load "m", .write "m" 2 5101, .tick 1, .load "m",
+    .newProcess, .write "m" 3 5102, .tick 1] "m" = some 3 := by decide
 
 /-- the stub of the sub-package `pkg.spk` (`pkg/spk/__init__.py`): step 2 probes
 `pkg/spk/__init__.pyi`, step 3 the listing of `pkg` -/
